@@ -34,7 +34,9 @@ Variable peer : P -> list Z -> P * list Z.          (* bytes sent -> reply made 
 Record world := {
   w_script : list outcome; w_choices : list choice; w_peer : P;
   w_conns : list (Z * list Z);      (* socket id -> bytes produced by the peer and not yet delivered *)
-  w_buf : list Z; w_discarded : list Z;
+  w_buf : list Z;
+  w_discarded : list Z;             (* ghost: the bytes dropped from the local buffer when the LAST exchange ended *)
+  w_bad : bool;                     (* ghost: a VALUE header with a negative size has been parsed (no server sends one) *)
   w_trace : list ev; w_next : Z; w_sock : option Z }.
 
 Definition M (A : Type) : Type := world -> exc A * world.
@@ -44,33 +46,26 @@ Definition mbind {A B} (m : M A) (k : A -> M B) : M B :=
   fun w => match m w with (Ok a, w') => k a w' | (Raise e, w') => (Raise e, w') end.
 Definition lift {A} (x : exc A) : M A := fun w => (x, w).
 
-Definition upd_script (w : world) (s : list outcome) : world :=
-  {| w_script := s; w_choices := w_choices w; w_peer := w_peer w; w_conns := w_conns w; w_buf := w_buf w;
-     w_discarded := w_discarded w; w_trace := w_trace w; w_next := w_next w; w_sock := w_sock w |}.
-Definition upd_choices (w : world) (c : list choice) : world :=
-  {| w_script := w_script w; w_choices := c; w_peer := w_peer w; w_conns := w_conns w; w_buf := w_buf w;
-     w_discarded := w_discarded w; w_trace := w_trace w; w_next := w_next w; w_sock := w_sock w |}.
-Definition upd_peer (w : world) (p : P) : world :=
-  {| w_script := w_script w; w_choices := w_choices w; w_peer := p; w_conns := w_conns w; w_buf := w_buf w;
-     w_discarded := w_discarded w; w_trace := w_trace w; w_next := w_next w; w_sock := w_sock w |}.
-Definition upd_conns (w : world) (c : list (Z * list Z)) : world :=
-  {| w_script := w_script w; w_choices := w_choices w; w_peer := w_peer w; w_conns := c; w_buf := w_buf w;
-     w_discarded := w_discarded w; w_trace := w_trace w; w_next := w_next w; w_sock := w_sock w |}.
-Definition upd_buf (w : world) (b : list Z) : world :=
-  {| w_script := w_script w; w_choices := w_choices w; w_peer := w_peer w; w_conns := w_conns w; w_buf := b;
-     w_discarded := w_discarded w; w_trace := w_trace w; w_next := w_next w; w_sock := w_sock w |}.
-Definition upd_discarded (w : world) (b : list Z) : world :=
-  {| w_script := w_script w; w_choices := w_choices w; w_peer := w_peer w; w_conns := w_conns w; w_buf := w_buf w;
-     w_discarded := b; w_trace := w_trace w; w_next := w_next w; w_sock := w_sock w |}.
-Definition upd_trace (w : world) (t : list ev) : world :=
-  {| w_script := w_script w; w_choices := w_choices w; w_peer := w_peer w; w_conns := w_conns w; w_buf := w_buf w;
-     w_discarded := w_discarded w; w_trace := t; w_next := w_next w; w_sock := w_sock w |}.
-Definition upd_next (w : world) (n : Z) : world :=
-  {| w_script := w_script w; w_choices := w_choices w; w_peer := w_peer w; w_conns := w_conns w; w_buf := w_buf w;
-     w_discarded := w_discarded w; w_trace := w_trace w; w_next := n; w_sock := w_sock w |}.
-Definition upd_sock (w : world) (s : option Z) : world :=
-  {| w_script := w_script w; w_choices := w_choices w; w_peer := w_peer w; w_conns := w_conns w; w_buf := w_buf w;
-     w_discarded := w_discarded w; w_trace := w_trace w; w_next := w_next w; w_sock := s |}.
+Definition upd_script (w : world) (x : list outcome) : world :=
+  {| w_script := x; w_choices := w_choices w; w_peer := w_peer w; w_conns := w_conns w; w_buf := w_buf w; w_discarded := w_discarded w; w_bad := w_bad w; w_trace := w_trace w; w_next := w_next w; w_sock := w_sock w |}.
+Definition upd_choices (w : world) (x : list choice) : world :=
+  {| w_script := w_script w; w_choices := x; w_peer := w_peer w; w_conns := w_conns w; w_buf := w_buf w; w_discarded := w_discarded w; w_bad := w_bad w; w_trace := w_trace w; w_next := w_next w; w_sock := w_sock w |}.
+Definition upd_peer (w : world) (x : P) : world :=
+  {| w_script := w_script w; w_choices := w_choices w; w_peer := x; w_conns := w_conns w; w_buf := w_buf w; w_discarded := w_discarded w; w_bad := w_bad w; w_trace := w_trace w; w_next := w_next w; w_sock := w_sock w |}.
+Definition upd_conns (w : world) (x : list (Z * list Z)) : world :=
+  {| w_script := w_script w; w_choices := w_choices w; w_peer := w_peer w; w_conns := x; w_buf := w_buf w; w_discarded := w_discarded w; w_bad := w_bad w; w_trace := w_trace w; w_next := w_next w; w_sock := w_sock w |}.
+Definition upd_buf (w : world) (x : list Z) : world :=
+  {| w_script := w_script w; w_choices := w_choices w; w_peer := w_peer w; w_conns := w_conns w; w_buf := x; w_discarded := w_discarded w; w_bad := w_bad w; w_trace := w_trace w; w_next := w_next w; w_sock := w_sock w |}.
+Definition upd_discarded (w : world) (x : list Z) : world :=
+  {| w_script := w_script w; w_choices := w_choices w; w_peer := w_peer w; w_conns := w_conns w; w_buf := w_buf w; w_discarded := x; w_bad := w_bad w; w_trace := w_trace w; w_next := w_next w; w_sock := w_sock w |}.
+Definition upd_bad (w : world) (x : bool) : world :=
+  {| w_script := w_script w; w_choices := w_choices w; w_peer := w_peer w; w_conns := w_conns w; w_buf := w_buf w; w_discarded := w_discarded w; w_bad := x; w_trace := w_trace w; w_next := w_next w; w_sock := w_sock w |}.
+Definition upd_trace (w : world) (x : list ev) : world :=
+  {| w_script := w_script w; w_choices := w_choices w; w_peer := w_peer w; w_conns := w_conns w; w_buf := w_buf w; w_discarded := w_discarded w; w_bad := w_bad w; w_trace := x; w_next := w_next w; w_sock := w_sock w |}.
+Definition upd_next (w : world) (x : Z) : world :=
+  {| w_script := w_script w; w_choices := w_choices w; w_peer := w_peer w; w_conns := w_conns w; w_buf := w_buf w; w_discarded := w_discarded w; w_bad := w_bad w; w_trace := w_trace w; w_next := x; w_sock := w_sock w |}.
+Definition upd_sock (w : world) (x : option Z) : world :=
+  {| w_script := w_script w; w_choices := w_choices w; w_peer := w_peer w; w_conns := w_conns w; w_buf := w_buf w; w_discarded := w_discarded w; w_bad := w_bad w; w_trace := w_trace w; w_next := w_next w; w_sock := x |}.
 
 Definition log (e : ev) : M unit := fun w => (Ok tt, upd_trace w (e :: w_trace w)).
 Definition pop : M outcome :=
@@ -98,13 +93,25 @@ Definition fresh_wrapped (raw : Z) : M Z :=
 Definition call (e : ev) : M unit :=
   mbind (log e) (fun _ => mbind pop (fun o => match o with OFail x => throw x | ONormal => ret tt end)).
 (* sock.sendall(b): on success the peer sees b and its reply becomes available on this socket *)
-Definition send (sid : Z) (b : list Z) : M unit :=
-  mbind (call (ESend sid b)) (fun _ => fun w =>
-    let '(p', reply) := peer (w_peer w) b in
-    (Ok tt, upd_conns (upd_peer w p') (conn_set (w_conns w) sid (conn_get (w_conns w) sid ++ reply)))).
+(* self.sock.sendall(b) *)
+Definition send (b : list Z) : M unit :=
+  fun w => match w_sock w with
+           | None => (Raise AttributeError, w)
+           | Some sid =>
+             mbind (call (ESend sid b)) (fun _ => fun w =>
+               let '(p', reply) := peer (w_peer w) b in
+               (Ok tt, upd_conns (upd_peer w p') (conn_set (w_conns w) sid (conn_get (w_conns w) sid ++ reply)))) w
+           end.
 (* end of an exchange: the local buffer is dropped *)
 Definition discard : M unit :=
-  fun w => (Ok tt, upd_buf (upd_discarded w (w_discarded w ++ w_buf w)) []).
+  fun w => (Ok tt, upd_buf (upd_discarded w (w_buf w)) []).
+(* self.sock = None after close(): the local buffer is never read again in this exchange and the
+   closed socket's undelivered bytes are gone *)
+Definition drop_sock : M unit :=
+  fun w => (Ok tt, upd_buf (upd_sock (match w_sock w with
+                                      | Some sid => upd_conns w (conn_set (w_conns w) sid [])
+                                      | None => w end) None) []).
+Definition mark_bad : M unit := fun w => (Ok tt, upd_bad w true).
 
 (* try: m  except <class c> as e: h e *)
 Definition mtry {A} (m : M A) (c : exn) (h : exn -> M A) : M A :=
@@ -131,7 +138,8 @@ Arguments log_n {P}.
 Arguments w_script {P}. Arguments w_choices {P}. Arguments w_peer {P}. Arguments w_conns {P}. Arguments w_buf {P}.
 Arguments w_discarded {P}. Arguments w_trace {P}. Arguments w_next {P}. Arguments w_sock {P}.
 Arguments upd_script {P}. Arguments upd_choices {P}. Arguments upd_peer {P}. Arguments upd_conns {P}. Arguments upd_buf {P}.
-Arguments upd_discarded {P}. Arguments upd_trace {P}. Arguments upd_next {P}. Arguments upd_sock {P}.
+Arguments upd_discarded {P}. Arguments upd_trace {P}. Arguments upd_next {P}. Arguments upd_sock {P}. Arguments upd_bad {P}.
+Arguments w_bad {P}. Arguments drop_sock {P}. Arguments mark_bad {P}.
 Arguments send {P}.
 
 Declare Scope world_scope.
